@@ -356,6 +356,32 @@ def run(ck, F):
                  f'{f["id"]} (line {n.get("ln")}) dispatches a {contracts.short(rt)} into {contracts.short(v)} without printing its location first: '
                  'with print_locations enabled the location of that node never appears', loc=f['loc'], fn=f['id'])
 
+    # ---------------------------------------------------------------- whether a location is printed is decided by the node alone
+    R6c = ck.rule('C17.location-decided-by-node', 'once location printing is on, whether and how the location of a node is written is '
+                  'decided by that node\'s own location: no path condition of the location printer reads the printer (a remembered '
+                  '`last location written`, a counter): two nodes that carry the same location both get it', floor=1)
+    lps = [f for f in F.fn.values() if (f.get('parent') or '').endswith('xpr::Location_printer') and f['name'] == 'operator()' and f.get('body')
+           and any('ipr::Stmt' in p['t'] for p in f['params'])]
+    if not lps:
+        raise AnalysisBroken('anchor vanished: Location_printer::operator()(const Stmt&)')
+    Slp = Sym(F, opaque=ppgraph.printer_opaque(F), max_depth=32)
+    for f in lps:
+        st0 = State()
+        o = st0.new_obj(f['parent'])
+        for fl in F.rec[f['parent']]['fields']:
+            if 'ipr::Printer' in fl['t']:
+                st0.heap[o[1]].fields[fl['name']] = ('addr', ppgraph.PRINTER) if fl['t'].rstrip().endswith('*') else ppgraph.PRINTER
+        try:
+            outs = Slp.run(f['id'], this=o, args=[('param', 0)], state=st0)
+        except Unsupported as e:
+            raise AnalysisBroken(f'{f["id"]}: {e}')
+
+        def mentions_printer(t):
+            return t == ppgraph.PRINTER or (isinstance(t, tuple) and any(mentions_printer(x) for x in t))
+        bad = sorted({contracts.render(c, s2, {})[:100] for s2, k, v in outs for c, b in s2.conds if mentions_printer(c)})
+        ck.check(R6c, contracts.short(contracts.fn_qname(f['id'])), not bad, f'{f["id"]}: what is written for a node depends on the printer\'s own state: '
+                 f'{bad[:3]} -- a node whose location equals one written earlier loses it', loc=f['loc'], fn=f['id'])
+
     # ---------------------------------------------------------------- locations
     R6 = ck.rule('C17.locations-gated', 'source / unit locations are read only by the location printer, which is created only under '
                  'the print_locations test', floor=2)
